@@ -29,9 +29,9 @@ THEOREMS = [
     "C13.exact_counterexample",
     "C13.exact_postgresql_identity",
     "C13.pg_identity_alter",
-    "C13.schema_partial",
-    "C13.schema_counterexample",
-    "C13.addressed_counterexample",
+    "C13.schema",
+    "C13.addressed",
+    "C13.addressed_end",
     "C13.computed_raises",
     "C13.identity_unsupported_raises",
 ]
@@ -41,12 +41,6 @@ PARTIAL = {
     "proved for plain/None server defaults on all seven dialects (the domain the property text names), plus "
     "C13.exact_postgresql_identity / C13.pg_identity_alter / C13.computed_raises / C13.identity_unsupported_raises for the "
     "identity/computed transitions the code supports or rejects; Oracle identity transitions are covered by correspondence only",
-    "C13.addressed_counterexample": "full statement C13.addressed_statement (every statement refers to the column by its current name) is "
-    "false: toimpl adds the new type's CHECK constraint on the old column name after the rename; for the attribute statements the "
-    "addressing is part of Spec.Alter.applyStmt and therefore of C13.exact_partial; no separate positive theorem for the constraint "
-    "statements (checked on every implementation output by Spec.Alter.addressOk)",
-    "C13.schema_partial": "full statement C13.schema_statement (every statement carries the schema on every dialect) is false on "
-    "Oracle when a comment change is requested with a schema: COMMENT ON COLUMN drops the schema (C13.schema_counterexample)",
 }
 TRUSTED = [
     "per-dialect statement parsers of harness/alter_impl.py (SQL text -> Stmt); a statement no rule accepts is a correspondence disagreement",
@@ -317,13 +311,13 @@ def run(ctx, rng_name="main", draws=None):
                         b.add(dialect, draw_values(rng, requested, stated, schema, False))
                     for _ in range(n_exotic):
                         b.add(dialect, draw_values(rng, requested, stated, schema, True))
+    # the witnesses of the known findings (open and fixed) go through the same comparison and spec oracle
+    for w in WITNESSES.values():
+        b.add(w["dialect"], w["req"])
     b.flush()
     shrink_failures(ctx)
     ctx.exhaustive = True
     ctx.extra["presence_patterns"] = 7 * 2 * 64 * 32
-    # the witnesses of the counterexample theorems, replayed on the implementation
-    for f in WITNESSES.values():
-        _replay_witness(ctx, f)
 
 
 # ---------------------------------------------------------------------------------------------
@@ -436,18 +430,6 @@ def _replay_witness(ctx, w):
 
 def check_witness(ctx, finding):
     w = finding.get("witness") or WITNESSES.get(finding["id"])
-    if finding["id"] == "C13-ORACLE-COMMENT-SCHEMA":
-        r, stmts, unknown = _replay_witness(ctx, w)
-        off = offenders(w["req"], stmts)
-        if off and all(o["k"] == "comment" for o in off):
-            return "Oracle COMMENT ON COLUMN is emitted without the schema: %r" % r["text"].strip()
-        return None
-    if finding["id"] == "C13-TYPE-CONSTRAINT-AFTER-RENAME":
-        r, stmts, unknown = _replay_witness(ctx, w)
-        mis = misaddressed(w["req"], stmts)
-        if mis and all(o["k"] == "addConstraint" for o in mis):
-            return "the CHECK constraint of the new type is added on the old column name after the rename: %r" % r["text"].strip()
-        return None
     if finding["id"] == "C13-PG-IDENTITY-ASSUMED":
         r, stmts, unknown = _replay_witness(ctx, w)
         if r["err"] is None and [st["k"] for st in stmts] == ["identityAlter"] and stmts[0].get("always") is None \
@@ -458,23 +440,9 @@ def check_witness(ctx, finding):
 
 
 def classify(failure):
-    """narrow structural signatures of the known findings"""
+    """narrow structural signatures of the *open* known findings (C13-ORACLE-COMMENT-SCHEMA and
+    C13-TYPE-CONSTRAINT-AFTER-RENAME are fixed: schema / address failures are never suppressed)"""
     tags = failure.get("tags") or []
-    if "schema" in tags and "oracle" in tags:
-        off = (failure.get("impl") or {}).get("offenders") or []
-        # only the Oracle COMMENT ON COLUMN statement, with the right table/column but no schema
-        req = failure["input"]["req"]
-        if off and all(o["k"] == "comment" and o.get("schema") is None and o.get("table") == req.get("table") for o in off):
-            return "C13-ORACLE-COMMENT-SCHEMA"
-    if "address" in tags:
-        mis = (failure.get("impl") or {}).get("misaddressed") or []
-        stmts = (failure.get("impl") or {}).get("stmts") or []
-        # only the schema-type CHECK constraint added by toimpl after the rename, naming the old column
-        req = failure["input"]["req"]
-        if (mis and all(o["k"] == "addConstraint" and o.get("col") == req.get("column") for o in mis)
-                and stmts and stmts[-1]["k"] == "addConstraint"
-                and any(st["k"] in ("rename", "mysqlChange") for st in stmts[:-1])):
-            return "C13-TYPE-CONSTRAINT-AFTER-RENAME"
     if "exact-nonplain" in tags and "postgresql" in tags:
         impl = failure.get("impl") or {}
         kinds = tuple(impl.get("default_kinds") or ())
